@@ -64,6 +64,7 @@ PROGRAMS = {
 }
 
 
+PROGRAMS["nopending-lateimport"] = "import sys\nsys.path.insert(0, '.')\n" + PROGRAMS["nopending"]
 PROGRAMS["lateimport"] = "import sys\nsys.path.insert(0, '.')\n" + PROGRAMS["canonical"]  # the inline_snapshot import follows a statement
 
 
@@ -139,7 +140,7 @@ def pending(prog, cfg):
         return ()
     if prog == "onlytrim":
         return ("trim",)
-    if prog == "nopending":
+    if prog.startswith("nopending"):
         return ()
     return CATS
 
@@ -170,7 +171,7 @@ def markers(prog, files):
                 "update": "'update':5" in t2}
     if prog == "onlytrim":
         return {"trim": "assert4<=snapshot(4)" in t2}
-    if prog == "nopending":
+    if prog.startswith("nopending"):
         return {}
 
 
@@ -220,7 +221,7 @@ def judge(prog, cfg, ref_states):
         # (documented hazard of trimming on a partial run); the test files must still be untouched
         ra = {k: v for k, v in ra.items() if k.endswith(".py")}
         rb = {k: v for k, v in rb.items() if k.endswith(".py")}
-    if not A and prog == "nopending" and m["active"] and "trim" in m["flags"] and "short-report" not in m["flags"]:
+    if not A and prog.startswith("nopending") and m["active"] and "trim" in m["flags"] and "short-report" not in m["flags"]:
         # trim is a flag of this session: the unreferenced external may go, nothing else may change
         u = ".inline-snapshot/external/%s.txt" % _h(UNUSED)
         ra = {k: v for k, v in ra.items() if k != u}
@@ -239,7 +240,7 @@ def judge(prog, cfg, ref_states):
     keep = ".inline-snapshot/external/%s.txt" % _h(KEEP)
     if keep not in ra or ra[keep] != KEEP:
         V("referenced-external-lost", keep)
-    if prog == "nopending":
+    if prog.startswith("nopending"):
         trim_ok = m["active"] and "trim" in m["flags"] and "short-report" not in m["flags"]
         if unused not in ra and not trim_ok:
             V("unused-external-removed-without-trim", unused)
@@ -340,7 +341,7 @@ def bounds(tier):
 
 
 def _progs(tier):
-    return ["canonical", "nopending", "twofiles", "lateimport"] if tier == "quick" else ["canonical", "nopending", "container", "twofiles", "onlytrim", "lateimport"]
+    return ["canonical", "nopending", "twofiles", "lateimport", "nopending-lateimport"] if tier == "quick" else ["canonical", "nopending", "container", "twofiles", "onlytrim", "lateimport", "nopending-lateimport"]
 
 
 def explore(tier, seed, runner):
@@ -357,7 +358,7 @@ def explore(tier, seed, runner):
     tasks = []
     for prog in _progs(tier):
         cs = cfgs if prog == "canonical" else [c for c in configs(tier) if not c.get("xdist") and not c.get("ci")]
-        if prog == "nopending":
+        if prog.startswith("nopending"):
             cs = [c for c in cs if "short-report" in (c.get("cli") or []) + (c.get("env") or []) + (c.get("default") or []) or "trim" in (c.get("cli") or [])
                   or c.get("answers") or not c.get("cli")][:: (1 if tier != "quick" else 2)]
         if prog == "lateimport":
